@@ -67,7 +67,7 @@ TB_M4 = ['tracers/native/call.go and call_flat.go are modelled by hand (Artela/M
 
 PROPS = {
     'C01': {
-        'modules': ['Artela.Props.C01', 'Artela.Proofs.GenFacts'],
+        'modules': ['Artela.Props.C01', 'Artela.Proofs.GenFacts', 'Artela.Props.InterpJournal', 'Artela.Props.InterpTables'],
         'runs': [{'layer': 'diff'}, {'layer': 'frame'}],
         'trusted_base': TB_DIFF + TB_M5 + TB_GEN,
         'assumptions': ['bytes 0xe0-0xe7 and calls to 0x64-0x66 are excluded (they are not standard); opcode NAMES of 0x5c-0x5e/0xb3/0xb4 differ (known finding D18)'],
